@@ -7,7 +7,7 @@ DECIDED = ("for every public install root and every path variant on each AArch64
            "table) to MOVZ/MOVK x4 + BR whose built value is, bit for bit, the replacement address (R15.1/R15.2), or to MOVZ w/x0,#v ; RET "
            "for the boolean stub (R15.6); the entry bytes decode to B (imm26 = displacement/4 under a dominating range guard whose failing "
            "edge diverges before any entry write, R15.3) or on macOS ADRP/ADD/BR x16 with page delta and low-12 fields by provenance (R15.4); "
-           "registers written are within x9..x17 plus x0 for the stub (R15.5)")
+           "registers written are within x9..x17 plus x0 for the stub (R15.5); all trampoline writes precede the entry write (R15.7)")
 NOT_DECIDED = "that the processor executes the words as the decode table says; atomicity of the 12-byte entry write"
 
 CALLER_SAVED_TEMPS = {"x%d" % i for i in range(9, 18)}
@@ -96,6 +96,9 @@ def run(ck, models, tier):
                     regs3 = {i.get("rd") for i in r.sim["ins"][:2]} | {r.sim["ins"][1].get("rn"), r.sim["ins"][2].get("rn")}
                     ck.ob("R15.4", "%s/%s/entry/adrp-same-register" % (tm.os, rn), tm.target, len(regs3) == 1,
                           "ADRP/ADD/BR use register(s) %s" % sorted(regs3), where(r.ev))
+        # R15.7 the trampoline is complete before the entry branches to it (shared with C01 R1.8)
+        k7 = patches.order_obligations(ck, "R15.7", tm)
+        ck.floor("R15.7", "install-paths-with-entry-and-trampoline", k7, 6, tm.target)
         # R15.3: refusal happens before any entry write
         for p in roots:
             func = [r.func for r in recs if r.root == p][0]
